@@ -83,3 +83,17 @@ for be in BACKS:
             xform=back_xform(['get_state_id', 'find_region_id'], refparams=('fsm',), rewrites=DERIVED + DES,
                              throwers=['Derived_on_entry', 'internal_start', 'process_event'], exc_ret=''),
             replay=['entry', 'hist']))
+START_RW = DERIVED + [dict(PCE, min=0),
+    dict(name='FOREACH-functor-init', pat='for_each < seq_initial_states , wrap < _1 > > ( init_states ( self -> m_states ) ) ;', rep='init_states_foreach ( self ) ;', min=0, max=1),
+    dict(name='FOREACH-functor-callinit0', pat='for_each < initial_states , wrap < _1 > > ( call_init < fsm_initial_event > ( fsm_initial_event ( ) , self ) ) ;', rep='call_init_foreach ( self , fsm_initial_event ( ) ) ;', min=0, max=1),
+    dict(name='FOREACH-functor-callinit1', pat='for_each < initial_states , wrap < _1 > > ( call_init < Event > ( incomingEvent , self ) ) ;', rep='call_init_foreach ( self , incomingEvent ) ;', min=0, max=1),
+    dict(name='member-do_exit', pat='do_exit ( self ,', rep='do_exit_stub ( self ,', min=0, max=1)]
+for be in BACKS:
+    SM = be + '/state_machine.hpp'
+    for nm, anchor in (('start', 'void start ( )'), ('start_evt', 'void start ( Event const & incomingEvent )')):
+        UNITS.append(Unit(be + '.' + nm, ['C03', 'C02', 'C04', 'C10', 'C13'], be, Part(SM, [], anchor),
+            'void start_unit(fsm_t* self, event_t incomingEvent)', 'cascade_back.spec.h',
+            xform=xf(START_RW, throwers=['Derived_on_entry', 'call_init_foreach', 'PROCESS_COMPLETION_EVENT']), also_replace=['process_completion_event'], replay=['queue', 'order']))
+    for nm, anchor in (('stop', 'void stop ( )'), ('stop_evt', 'void stop ( Event const & finalEvent )')):
+        UNITS.append(Unit(be + '.' + nm, ['C03', 'C13'], be, Part(SM, [], anchor),
+            'void stop_unit(fsm_t* self, event_t finalEvent)', 'cascade_back.spec.h', xform=xf(START_RW, throwers=[]), replay=['order']))
